@@ -152,6 +152,20 @@ def run(chk):
         raise vlib.Inconclusive("harness predicate and TLC trace validation disagree")
     if nrec < 1000:
         raise vlib.Inconclusive("vacuous numbering run (%d records)" % nrec)
+    # (D) DTLS 1.3 handshakes whose flights span several datagrams (spec/Handshake13F.tla scripts: partial acknowledgements,
+    # selective retransmission of message remainders, time-outs): the numbers of all sealed records, per side and epoch
+    import hsreplay13f
+    for variant in ("", "m400"):
+        s13f = hsreplay13f.generate(chk, limit=1500 if chk.quick else 12000, variant=variant)
+        frows, fsumm = hsreplay13f.replay(chk, binary, s13f, variant=variant)
+        nnum = 0
+        for r in frows:
+            for v in [x for x in r.get("law", []) if "C09" in x][:1]:
+                nnum += 1
+                chk.violation({"kind": "record-number", "what": v, "config": "dtls13-fragmented-flight" + variant,
+                               "script13f": {"scen": hsreplay13f.scen_of(variant), "steps": s13f[r["script"]]["steps"], "qmax": hsreplay13f.QMAX, "bkcap": 3}})
+        chk.parts["fragmented13" + variant] = {"scripts": fsumm["scripts"], "numbering_violations": nnum, "diverged": fsumm.get("diverged", 0)}
+        del s13f
     chk.parts["sessions"] = {"cases": len(cases), "records_observed": nrec, "payloads_delivered": sum(r["data"] for r in rows),
                              "writes_refused_at_2^48": sum(r["refused"] for r in rows), "race_detector": not chk.quick}
     chk.sample({"config": cases[0]["name"], "first_records": (rows[0].get("records") or [])[:6]})
@@ -163,6 +177,12 @@ def run(chk):
 
 def replay(chk, path):
     facts = json.load(open(path))
+    if "script13f" in facts:
+        import hsreplay13f
+        rows, _ = hsreplay13f.replay_one(chk, vlib.build("root"), facts["script13f"])
+        if any("C09" in x for r in rows for x in r.get("law", [])):
+            chk.violation(dict(facts, replayed=True), replay=path)
+        return
     rows = run_cases(chk, vlib.build("root"), [facts["case"]])
     for r in rows:
         if r.get("violations"):
